@@ -133,21 +133,18 @@ fn covers_matching(o: u8) {
 }
 // HARNESS props=C01,C08 tier=quick profile=gw_wire1 shape="installed set N=1, proof with 1 entry; epochs/retention full u64; key bytes S=2"
 #[kani::proof]
-#[kani::unwind(114)]
 #[kani::stub(validate_signatures, stub_validate_signatures)]
 fn c01_wiring_n1() {
     covers_matching(c01_wiring(1, 1))
 }
 // HARNESS props=C01,C08 tier=quick profile=gw_wire2 shape="installed set N=2, proof with 2 entries"
 #[kani::proof]
-#[kani::unwind(166)]
 #[kani::stub(validate_signatures, stub_validate_signatures)]
 fn c01_wiring_n2() {
     covers_matching(c01_wiring(2, 2))
 }
 // HARNESS props=C01 tier=quick profile=gw_wire2 shape="installed set N=2, proof with 1 entry (dropped signer)"
 #[kani::proof]
-#[kani::unwind(166)]
 #[kani::stub(validate_signatures, stub_validate_signatures)]
 fn c01_wiring_n2_p1() {
     let o = c01_wiring(2, 1);
@@ -155,7 +152,6 @@ fn c01_wiring_n2_p1() {
 }
 // HARNESS props=C01 tier=quick profile=gw_wire2 shape="installed set N=1, proof with 2 entries (added/duplicated signer)"
 #[kani::proof]
-#[kani::unwind(166)]
 #[kani::stub(validate_signatures, stub_validate_signatures)]
 fn c01_wiring_n1_p2() {
     let o = c01_wiring(1, 2);
@@ -164,7 +160,6 @@ fn c01_wiring_n1_p2() {
 
 // HARNESS props=C01,C08 tier=quick profile=gw_wire3 shape="installed set N=3, proof with 3 entries"
 #[kani::proof]
-#[kani::unwind(220)]
 #[kani::stub(validate_signatures, stub_validate_signatures)]
 fn c01_wiring_n3() {
     covers_matching(c01_wiring(3, 3))
